@@ -214,6 +214,37 @@ func c19(r *Run) {
 			r.ob("C19.R2:guarded:"+typ+"."+field, typ+"."+field+" exists", nil, nil, false, "no access found: anchor lost", false)
 		}
 	}
+	// the spin locks really lock: lock() returns only after its compare-and-swap 0->1 succeeded
+	{
+		fns := []*ssa.Function{w.MustFn("lock")}
+		if w.Mux != nil {
+			if f := w.Fn("(*mux.ShardQueue).lock"); f != nil {
+				fns = append(fns, f)
+			}
+		}
+		for _, fn := range fns {
+			won := func(v ssa.Value) (bool, bool) {
+				c, ok := v.(*ssa.Call)
+				if !ok {
+					return false, false
+				}
+				a := asAtomic(c)
+				if a == nil || a.Op != "CompareAndSwap" {
+					return false, false
+				}
+				o, ok1 := constInt(a.Args[0])
+				n, ok2 := constInt(a.Args[1])
+				if ok1 && ok2 && o == 0 && n == 1 {
+					return true, true
+				}
+				return false, false
+			}
+			ss := &Search{Fn: fn, CutEdge: cutOn(won)}
+			wit := ss.Find([]Start{Entry(fn)}, nil, true)
+			r.Visited += ss.Visited
+			r.obW("C19.R2:spin-lock-acquires:"+w.FnName(fn), "the spin lock's lock() returns only on the edge where its CompareAndSwap(0,1) succeeded: everything 'guarded by' this lock relies on it", fn, nil, wit, "the only exit is the CAS-success edge")
+		}
+	}
 	aL, rL := spin(".locked")
 	aF, rF := spin(".freelocked")
 	ctor := map[string]string{"newOperatorCache": "constructor"}
